@@ -754,6 +754,54 @@ func runPackStream(o *Opts) {
 		t3, ig3 := mk("", func(src *TNode) { delete(src.Kids, "x") }) // D9: the source given by way of a symlink
 		jobs = append(jobs, job{&PackCase{Init: t3, Src: "/w/lnk", Cwd: "/", FailAt: -1}, ig3, false, rng.Fork()})
 	}
+	// template sweep, run on every invocation whatever the seed: one link of each shape the generator knows, at the
+	// top of the source directory and one level down, with and without dereferencing, with and without an allow list
+	{
+		inTree := []string{"a", "sub/a", "./a", "nothing", "sub", "."}
+		outTree := []string{"%s..", "%s../src/..", "%s../src/a", "%s../src/sub", "%s../src-sib/secret", "%s../src-sib", "%s../outside/f", "%s../outside/d",
+			"/w/src/a", "/w/outside/d", "/w/outside/f", "/secret", "%s../outside/chain", "%s../outside/back", "%s../outside/backd", "%s../other/outside/f",
+			"%s../outside/hollow", "%s../oalias/f", "%s../../secret", "%s../outside/dl/../f"}
+		for depth := 0; depth < 2; depth++ {
+			up := strings.Repeat("../", depth)
+			var tmpl []string
+			for _, t := range inTree {
+				if depth == 1 && !strings.HasPrefix(t, ".") {
+					t = "../" + t
+				}
+				tmpl = append(tmpl, t)
+			}
+			nIn := len(tmpl)
+			for _, t := range outTree {
+				if strings.Contains(t, "%s") {
+					t = fmt.Sprintf(t, up)
+				}
+				tmpl = append(tmpl, t)
+			}
+			for ti, t := range tmpl {
+				for _, deref := range []bool{false, true} {
+					for _, allow := range [][]string{nil, {"/w/outside"}, {"../outside/f"}} {
+						if allow != nil && (ti < nIn || !strings.Contains(t, "outside")) {
+							continue
+						}
+						r := NewRng(11)
+						tree, _, _ := genPackTree(r, false)
+						src := tdir(0o755, map[string]*TNode{"a": tfile("root-a", 0o644), "b.txt": tfile("b", 0o600),
+							"sub": tdir(0o755, map[string]*TNode{"a": tfile("sub-a", 0o644)})})
+						if depth == 0 {
+							src.Kids["l"] = tlink(t)
+						} else {
+							src.Kids["sub"].Kids["l"] = tlink(t)
+						}
+						tree.Kids["w"].Kids["src"] = src
+						tree.Kids["w"].Kids["outside"].Kids["dl"] = tlink("../other/deep")
+						tree.Kids["w"].Kids["other"].Kids["f"] = tfile("oth", 0o644)
+						c := &PackCase{Init: tree, Src: "/w/src", Cwd: "/", Deref: deref, Allow: allow, FailAt: -1}
+						jobs = append(jobs, job{c, "", ti >= nIn, rng.Fork()})
+					}
+				}
+			}
+		}
+	}
 	for i := 0; i < n; i++ {
 		risky := i%12 == 11
 		tree, hasOut, ign := genPackTree(rng, risky)
